@@ -10,8 +10,8 @@
     1e-6 absolute; L1: 1e-9 relative), and for |live| ≤ ef exactly min(k,|live|) results that are k
     nearest; the `ann` contract (ILV.Hnsw.AnnContract) is checked on the observed raw answer;
   * C25 (`st` ops): stored-minus-tombstoned = live (vectors within 4 ulp of the prepared latest
-    vector, exact for l2/l1), graph identifiers = live identifiers, len / tombstone count /
-    dimension / config as implied by the history.
+    vector, exact for l2/l1), searchable graph identifiers (graph minus tombstoned) = live
+    identifiers, len / tombstone count / dimension / config as implied by the history.
 -/
 import ILV.Drv.Common
 import ILV.Drv.NativeFloat
@@ -68,41 +68,9 @@ def Abs.delete (a : Abs) (id : Nat) : Abs :=
 
 def Abs.rebuild (es : List (Nat × V)) : Abs := { live := es, stored := es.map (·.1), pending := [] }
 
-/-! ### bookkeeping for the identifying predicates of the known defect families -/
-
-structure Track where
-  lost : List Nat := []        -- identifiers inserted while tombstoned since the last `rebuild` (sticky: the
-                               -- bookkeeping of code and Spec stays apart until everything is replaced)
-  staleBatch : Bool := false   -- a failing insert_batch stored entries without rebuilding the graph
-
 structure St where
   idx : Index NF
   abs : Abs := {}
-  tr : Track := {}
-
-def tombInGraph (s : Index NF) : Bool :=
-  match s.inner with
-  | none => false
-  | some g => g.any (fun e => s.tombs.contains e.1)
-
-def defectClass (st : St) : String :=
-  if !st.tr.lost.isEmpty then "reinsert_tombstoned"
-  else if tombInGraph st.idx then "deleted_id_in_graph"
-  else if st.tr.staleBatch then "stale_graph_after_failed_batch"
-  else "unclassified"
-
-/-- store entries one by one on the abstract side, as far as the model accepted them. -/
-def absBatch (st : St) (es : List (Nat × V)) : St :=
-  -- replay the model's own per-entry decisions to know which entries were stored
-  let rec go (s : Index NF) (a : Abs) (lost : List Nat) (n : Nat) : List (Nat × V) → Abs × List Nat × Nat
-    | [] => (a, lost, n)
-    | (id, v) :: rest => match storeOne s id v with
-      | .error _ => (a, lost, n)
-      | .ok s1 =>
-        let lost1 := if s.tombs.contains id && !lost.contains id then lost ++ [id] else lost
-        go s1 (a.upsert id v) lost1 (n + 1) rest
-  let (a, lost, _) := go st.idx st.abs st.tr.lost 0 es
-  { st with abs := a, tr := { st.tr with lost := lost } }
 
 /-! ### printing the state like the harness's `st` -/
 
@@ -185,7 +153,7 @@ def hexToF64 (h : String) : Option Float := if h == "nan" then some (0.0 / 0.0) 
 def searchSpec (m : Metric) (live : List (Nat × V)) (dim : Nat) (q : V) (k ef : Nat) (res : List (Nat × String)) : Option String :=
   let finite := q.all Float32.isFinite
   let qnorm := (dot64 q q).sqrt
-  if !finite || live.any (fun p => p.2.length != q.length) || dim != dim || (needsNorm m && !(qnorm > 1e-10)) then none   -- outside the Spec's domain: one common dimension, finite query, non-zero query norm for cosine/dot
+  if !finite || live.any (fun p => p.2.length != q.length) || (needsNorm m && !(qnorm > 1e-10)) then none   -- outside the Spec's domain: one common dimension, finite query, non-zero query norm for cosine/dot
   else
     let ids := res.map (·.1)
     let ds := res.filterMap (fun r => hexToF64 r.2)
@@ -249,7 +217,7 @@ def stateSpec (cfg : Cfg) (a : Abs) (impl : String) : Option String :=
         | none => true) with
       | some p => some s!"stored-vector-not-latest-id-{p.1}"
       | none =>
-        if !sameSet inner (a.live.map (·.1)) then some "graph-ids-differ-from-live"
+        if !sameSet (inner.filter (fun i => !tombs.contains i)) (a.live.map (·.1)) then some "searchable-graph-ids-differ-from-live"
         else if len != a.stored.length then some "len-not-implied-by-history"
         else if tomb != a.pending.length then some "tombstone-count-not-implied-by-history"
         else if !a.live.isEmpty && a.live.all (fun p => p.2.length == (a.live.head?.map (·.2.length)).getD 0) && dim != (a.live.head?.map (·.2.length)).getD 0 then some "dimension"
@@ -274,39 +242,28 @@ def stepOp (judgeSearch judgeState : Bool) (acc : Acc) (op : String) (implRes : 
   | ["i", id, v] => (match parseUsize id, vecOfWire v with
     | some id, some v =>
       let (s1, e) := insert s id v
-      let st1 : St := match e with
-        | some _ => { st with idx := s1 }
-        | none =>
-          let lost := if s.tombs.contains id && !st.tr.lost.contains id then st.tr.lost ++ [id] else st.tr.lost
-          { idx := s1, abs := st.abs.upsert id v, tr := { lost := lost, staleBatch := false } }
-      push st1 (errWire e)
+      push { idx := s1, abs := if e.isNone then st.abs.upsert id v else st.abs } (errWire e)
     | _, _ => push st "bad")
   | "ib" :: ws => (match parseEntries ws with
     | some es =>
       let (s1, e) := insertBatch s es
-      let st1 := absBatch st es
-      let stored := (es.length > 0) && (match e with | some _ => st1.abs.live != st.abs.live || st1.tr.lost != st.tr.lost || s1.vectors.length != s.vectors.length | none => false)
-      let st2 : St := { st1 with idx := s1, tr := { st1.tr with staleBatch := match e with | none => false | some _ => st.tr.staleBatch || stored } }
-      push st2 (errWire e)
+      -- a rejected batch stores nothing (all entries are validated first)
+      push { idx := s1, abs := if e.isNone then es.foldl (fun a p => a.upsert p.1 p.2) st.abs else st.abs } (errWire e)
     | none => push st "bad")
   | "rb" :: ws => (match parseEntries ws with
-    | some es => push { idx := rebuild s es, abs := Abs.rebuild es, tr := {} } "ok"
+    | some es =>
+      let (s1, e) := rebuild s es
+      push { idx := s1, abs := if e.isNone then Abs.rebuild es else st.abs } (errWire e)
     | none => push st "bad")
   | ["d", id] => (match parseUsize id with
-    | some id =>
-      let s1 := delete s id
-      let compacted := s1.tombs.isEmpty
-      let tr : Track := { lost := st.tr.lost, staleBatch := if compacted then false else st.tr.staleBatch }
-      push { idx := s1, abs := st.abs.delete id, tr := tr } "-"
+    | some id => push { idx := delete s id, abs := st.abs.delete id } "-"
     | none => push st "bad")
-  | ["sl"] =>
-    let s1 := (load (save s)).getD s
-    push { st with idx := s1, tr := { st.tr with staleBatch := false } } "ok"
+  | ["sl"] => push { st with idx := (load (save s)).getD s } "ok"
   | ["st"] =>
     let acc1 := push st (stateWire s)
     if judgeState then
       match stateSpec s.cfg st.abs implRes with
-      | some d => { acc1 with fails := acc1.fails ++ [(defectClass st, d)], states := acc1.states + 1 }
+      | some d => { acc1 with fails := acc1.fails ++ [("unclassified", d)], states := acc1.states + 1 }
       | none => { acc1 with states := acc1.states + 1 }
     else acc1
   | ["s", k, ef, q] => (match parseUsize k, (if ef == "-" then some none else (parseUsize ef).map some), vecOfWire q with
@@ -320,13 +277,14 @@ def stepOp (judgeSearch judgeState : Bool) (acc : Acc) (op : String) (implRes : 
         let acc1 := push st model
         if judgeSearch then
           let efv := searchEf s ef
+          let efUser := ef.getD s.cfg.efs
           let pq := prepare NF s.cfg.metric q
           let contract := match s.inner with
             | none => if raw.isEmpty then none else some "raw-without-graph"
             | some g => annContract (g.map (·.2)) pq (searchK s k) efv raw
           let dimA := (st.abs.live.head?.map (·.2.length)).getD 0
           let verdict := match parseRes resS with
-            | some res => searchSpec s.cfg.metric st.abs.live dimA q k efv res
+            | some res => searchSpec s.cfg.metric st.abs.live dimA q k efUser res
             | none => some "unparsable"
           let acc2 := { acc1 with searches := acc1.searches + (if st.abs.live.isEmpty then 0 else 1) }
           let hasDup : Bool := match s.inner with
@@ -337,15 +295,12 @@ def stepOp (judgeSearch judgeState : Bool) (acc : Acc) (op : String) (implRes : 
           let acc3 := match contract with
             | some d => if q.all Float32.isFinite then { acc2 with fails := acc2.fails ++ [(annCls, d)] } else acc2
             | none => acc2
-          let tinyLive := needsNorm s.cfg.metric && st.abs.live.any (fun p => normTooSmall (F := NF) p.2)
           match verdict with
           | some d =>
             -- a completeness failure that is the direct consequence of an incomplete raw answer is
             -- reported once, as the contract failure
             if contract.isSome && (d.startsWith "fewer-than-min-k-live" || d.startsWith "nearer-live-id") then acc3 else
-            let cls := if defectClass st != "unclassified" then defectClass st
-              else if tinyLive then "rebuild_accepts_zero_norm"
-              else if s.cfg.metric == .manhattan && 4 * k < st.abs.live.length && d.startsWith "nearer-live-id" then "manhattan_rerank_window"
+            let cls := if s.cfg.metric == .manhattan && 4 * k < st.abs.live.length && d.startsWith "nearer-live-id" then "manhattan_rerank_window"
               else "unclassified"
             { acc3 with fails := acc3.fails ++ [(cls, d)] }
           | none => acc3
